@@ -91,8 +91,12 @@ def renderOutcome (o : Outcome) : Args :=
    ("sent", if o.sent.isEmpty then "-" else ";".intercalate (o.sent.map renderSend)),
    ("sub", match o.sub with | some s => renderSub s | none => "-")]
 
-/-- `channel-N ↔ channel-1N`: the default counterparty channel of the harness. -/
-def counterparty (ch : String) : String := "channel-1" ++ (ch.drop "channel-".length).toString
+/-- The default counterparty channel of the harness: ids are numbered independently per chain, so our `channel-0 ↔` their
+`channel-1`, our `channel-1 ↔` their `channel-2` (the other side's id of one channel is the local id of another);
+otherwise `channel-N ↔ channel-1N`. -/
+def counterparty (ch : String) : String :=
+  if ch == "channel-0" then "channel-1" else if ch == "channel-1" then "channel-2"
+  else "channel-1" ++ (ch.drop "channel-".length).toString
 
 /-- The other side as named on a `connect` line (`cport=`, `cchan=`, `conn=`; defaults as in the harness). -/
 def parsePeer (a : Args) : Peer :=
@@ -454,6 +458,11 @@ def monitorOp (mu : Mon) (prev : Args) (toks : List String) (implOk : Bool) (out
       (mu.paidOut.filterMap fun (k, p) =>
         if p ≤ mu.escrowed.at k then none
         else some (mk "C11" "C11/paid-beyond-escrow" s!"chan={k.1} denom={k.2} paid={p} escrowed={mu.escrowed.at k}")) ++
+      -- ... and what a channel still reports as its own, plus what it already paid, never exceeds what was escrowed there
+      (pairs.filterMap fun k =>
+        if obsOut cur k.1 k.2 + mu.paidOut.at k ≤ mu.escrowed.at k then none
+        else some (mk "C11" "C11/reported-beyond-escrow"
+          s!"chan={k.1} denom={k.2} outstanding={obsOut cur k.1 k.2} paid={mu.paidOut.at k} escrowed={mu.escrowed.at k}")) ++
       -- bad packets release nothing
       (if kind == "ibc.recv" && !fresh then
         let bad : Bool := (a.get "raw").isSome ||
@@ -577,7 +586,16 @@ def monitorOp (mu : Mon) (prev : Args) (toks : List String) (implOk : Bool) (out
            | none => [mk "C18" "C18/payout-gas" s!"sub={out.str "sub"} for a token that is neither allowed nor covered by a default"])
         | _ => [mk "C18" "C18/payout-gas" s!"unparsed sub={out.str "sub"}"]
        else [])
-    (mu, f11 ++ f12 ++ f18)
+    -- an accepted instantiate records every entry of its allow list (the last one per address) with its gas limit
+    let f18i := if kind == "inst" && implOk then
+        let ca := obsAllow cur
+        let want : AMap String (Option Nat) := (parseAllowList a "allow").foldl (fun acc p => acc.set p.1.text p.2) []
+        want.filterMap fun (t, g) =>
+          match ca.find? (·.1 == t) with
+          | some (_, g') => if g == g' then none else some (mk "C18" "C18/initial-allow-gas" s!"token={t} submitted={optNatStr g} stored={optNatStr g'}")
+          | none => some (mk "C18" "C18/initial-allow-missing" s!"token={t} gas={optNatStr g}")
+      else []
+    (mu, f11 ++ f12 ++ f18 ++ f18i)
 
 def scen : Scen MState Mon where
   init h := { w := initWorld h, pool := h.list "pool", tokens := h.list "tokens", denoms := h.list "denoms", chans := h.list "chans", extra := h.list "extra" }
